@@ -67,7 +67,7 @@ CLAIMED = {
          "Trusted: CPython's ast parser, sa/terms.py (use-def reconstruction), sa/props/c02.py. Assumes labels of absent "
          "keywords do not collide with stored labels (quality of PRF/PRP, not of this code) and that KeyError/IndexError are "
          "the exceptions container loads raise. Values are not computed."),
- "C06": ("dominance (sort-before-build) in the table builders + provenance of slot-index terms (use-def) in _Enc",
+ "C06": ("dominance (sort-before-build) in the table builders + provenance of slot-index terms (use-def) in _Enc; no seeding of the shared generator (who-may-call); imports R15.4 for the PRP behind key-derived placement",
          "Decides both mechanisms the property names. (1) In the six schemes that specify it, every dictionary of the encrypted "
          "database reaches the EDB constructor from a builder classmethod in which a sort by the pair's first component "
          "dominates the dict construction from the same list, with no reordering in between. (2) Every store into an array of "
@@ -137,7 +137,7 @@ CLAIMED = {
          "registry maps the three spellings. Correct decryption as values, the expansion formula and wrong-key behaviour are "
          "properties of the `cryptography` primitive and are NOT decided.",
          "Trusted: CPython's ast parser, sa/terms.py, sa/props/c14.py; the `cryptography` package implements AES-CBC/PKCS7 correctly."),
- "C15": ("loop summaries with role assignment by unification: Feistel state transformers composed symbolically (x^y^y -> x), round order and count, refusal contracts on must-facts",
+ "C15": ("loop summaries with role assignment by unification: Feistel state transformers composed symbolically (x^y^y -> x), round order and count, refusal contracts on must-facts; width / MAC provenance of the round function by abstract interpretation over a finite grid of widths when it is not in the reference shape (sa/macwidth.py)",
          "Decides bijectivity and inverse correctness by shape, for every key, width and round function: the encryption round "
          "is (a,b) -> (b, a xor F(key,i,b,len a)) with F independent of a; the decryption round composed with it reduces to the "
          "identity by x^y^y -> x; round orders are reversed; the default round count is even and no caller passes another; "
